@@ -231,6 +231,8 @@ def render(t, f=None):
         return "path()"
     if h == "sel":
         return "<written by a helper>"
+    if h == "stored":
+        return "<a path remembered in %s from an earlier lookup, not resolved and containment-checked now>" % t[1]
     return "<%s>" % (t[1] if len(t) > 1 else "?")
 
 
@@ -298,7 +300,13 @@ class PathFlow:
                 out.append((d, (av[0], PathFlow.meet(av[1], bv[1]))))
             else:
                 ca, cb = PathFlow.collapse(av), PathFlow.collapse(bv)
-                out.append((d, (ca[0], PathFlow.meet(ca[1], cb[1])) if ca[0] == cb[0] else (("unknown", "differs between the paths that meet here"), frozenset())))
+                if ca[0] == cb[0]:
+                    out.append((d, (ca[0], PathFlow.meet(ca[1], cb[1]))))
+                elif mentions(ca[0], "stored") or mentions(cb[0], "stored"):
+                    # one way in brings a remembered path: the value may be that one, with only what holds on both ways
+                    out.append((d, (ca[0] if mentions(ca[0], "stored") else cb[0], PathFlow.meet(ca[1], cb[1]))))
+                else:
+                    out.append((d, (("unknown", "differs between the paths that meet here"), frozenset())))
         return tuple(out)
 
     # ---- expressions
@@ -318,6 +326,13 @@ class PathFlow:
                 return self.term(f, st, vs[0]["init"])      # a single-assignment local of another type (std::string name(…))
             return ("unknown", "variable %s" % n.get("n"))
         if k == "member":
+            if last(n["n"]) in ("second", "first") and n["n"].startswith("std::pair"):
+                # an element of an associative container (`it->second`): a path remembered from an earlier request.  Whatever was checked when
+                # it was stored says nothing about the directory tree as it is now, so it carries no flags and is never a fresh resolution.
+                src = sorted({x["n"] for x in walk(n.get("obj") or {}) if x.get("k") == "member" and x is not n} |
+                             {y["n"] for x in walk(n.get("obj") or {}) if x.get("k") == "var" and x.get("d") not in assigned_ds(f)
+                              for v in decl_vars(f).get(x.get("d"), [])[:1] if isinstance(v.get("init"), dict) for y in walk(v["init"]) if y.get("k") == "member"})
+                return ("stored", ", ".join(short(x) for x in src) or "a container")
             return ("field", n["n"])
         if k == "str":
             return ("str", n.get("v", ""))
@@ -1208,7 +1223,7 @@ def r4(ctx, r):
             continue
         for e in f.stmts():
             n = e.node
-            if n.get("k") == "mcall" and last(n.get("callee", "")) in deny and ("filesystem::path" in ((strip_casts(n.get("obj") or {}) or {}).get("t") or "") or ".string()" in show(n.get("obj") or {}) or ".native()" in show(n.get("obj") or {})):
+            if n.get("k") == "mcall" and last(n.get("callee", "")) in deny and (is_path_type((strip_casts(n.get("obj") or {}) or {}).get("t") or "") or ".string()" in show(n.get("obj") or {}) or ".native()" in show(n.get("obj") or {})):
                 bad.append((f, e))
     r.instance()
     r.expect(not bad, bad[0][0] if bad else ic, bad[0][1] if bad else None, "string-prefix containment", "%s compares paths as strings (`%s`): a sibling directory whose name starts with the root's name passes a prefix test" %
